@@ -163,6 +163,9 @@ class Ctx:
         shutil.rmtree(self.scratch, ignore_errors=True)
         os.makedirs(self.scratch, exist_ok=True)
         os.makedirs(os.path.join(BUILD, "replay"), exist_ok=True)
+        for f in os.listdir(os.path.join(BUILD, "replay")):
+            if f.startswith(pid + "_"):
+                os.remove(os.path.join(BUILD, "replay", f))
         self.violations = []        # dicts: {kind, what, replay, found_input}
         self.known_hits = []
         self.obligations = []       # (name, discharged: bool)
